@@ -14,7 +14,7 @@ use sv_parser_parser::{Span, SpanInfo};
 #[derive(Clone, Copy, Debug, PartialEq, Eq, PartialOrd, Ord, Hash)]
 pub struct Call(pub usize);
 
-pub const CALLS: [(&str, &str); 18] = [
+pub const CALLS: [(&str, &str); 22] = [
     ("parse_sv_str ok", "module a; wire w; endmodule\n"),
     ("parse_sv_str broken", "module a; wire ; endmodule\n"),
     ("parse_sv_str incomplete", "module a; endmodule\n)"),
@@ -33,11 +33,29 @@ pub const CALLS: [(&str, &str); 18] = [
     ("raw lib_parser on the reused buffer", "library l a.v;               "),
     ("raw pp_parser on the reused buffer", "`define A 1\n`A `ifdef A x   "),
     ("parse_sv_str with define and ifdef", "`define W 1\n`ifdef W\nmodule a; logic l; endmodule\n`endif\n"),
+    ("preprocess_str on the reused String: rejected (unterminated string)", "module a; initial $display(\"oops); endmodule\n"),
+    ("preprocess_str on the reused String: accepted", "module b; wire w; /* c */ endmodule          \n"),
+    ("parse_sv_str on the reused String: rejected by the parser", "module c; wire ; endmodule\n"),
+    ("parse_sv_str on the reused String: accepted", "module d; reg r; endmodule\n"),
 ];
 
 thread_local! {
     /// one buffer per thread, never reallocated: different texts live at the same address
     static BUF: RefCell<Box<[u8; 64]>> = RefCell::new(Box::new([b' '; 64]));
+}
+
+thread_local! {
+    /// a String whose heap block is never reallocated: callers that reuse one buffer for many files
+    static SBUF: RefCell<String> = RefCell::new(String::with_capacity(256));
+}
+
+fn with_sbuf<T>(text: &str, f: impl FnOnce(&str) -> T) -> T {
+    SBUF.with(|b| {
+        let mut b = b.borrow_mut();
+        b.clear();
+        b.push_str(text);
+        f(b.as_str())
+    })
 }
 
 fn self_file() -> PathBuf {
@@ -94,6 +112,8 @@ pub fn exec(c: Call) -> String {
         5 | 9 => pp(text),
         6 => pp(&text.replace("{SELF}", &self_file().to_string_lossy())),
         13 | 14 => raw(text, |s| sv_parser_parser::sv_parser(s).map(|(rest, t)| (rest.fragment().len(), t)).map_err(|e| format!("{:?}", nom_err_pos(&e)))),
+        18 | 19 => with_sbuf(text, |t| pp(t)),
+        20 | 21 => with_sbuf(text, |t| parse(false, false, t)),
         15 => raw(text, |s| sv_parser_parser::lib_parser(s).map(|(rest, t)| (rest.fragment().len(), t)).map_err(|e| format!("{:?}", nom_err_pos(&e)))),
         16 => raw(text, |s| sv_parser_parser::pp_parser(s).map(|(rest, t)| (rest.fragment().len(), t)).map_err(|e| format!("{:?}", nom_err_pos(&e)))),
         _ => parse(false, false, text),
@@ -119,7 +139,7 @@ fn fingerprint() -> (usize, usize, Vec<u8>) {
 
 pub fn build(tier: Tier) -> Check<'static> {
     let mut c = Check::new("C07", tier, "6/C07");
-    c.rule = "alphabet of 18 calls (accepted / rejected / incomplete SystemVerilog and library parses, recursion-limit and self-include failures, a source leaving `begin_keywords open, one starting with `resetall, a pp syntax error after a `define, three probes whose verdict flips if keyword or directive state leaks, and the three raw parser entry points on ONE reused buffer); (a) every sequence of length <= 3 (quick) / 4 (thorough) on a fresh OS thread, the last call's complete result compared with the same call on a fresh thread; (b) breadth-first search over the hooked thread state (memo occupancy, directive depth, keyword-version stack) reached by such sequences, every call checked from every reachable state; non-trivial = sequences of length >= 2, distinct by construction".into();
+    c.rule = "alphabet of 22 calls (accepted / rejected / incomplete SystemVerilog and library parses, recursion-limit and self-include failures, a source leaving `begin_keywords open, one starting with `resetall, a pp syntax error after a `define, three probes whose verdict flips if keyword or directive state leaks, the three raw parser entry points on ONE reused buffer, and preprocess_str / parse_sv_str fed from ONE reused String, rejected and accepted); (a) every sequence of length <= 3 (quick) / 4 (thorough) on a fresh OS thread, the last call's complete result compared with the same call on a fresh thread; (b) breadth-first search over the hooked thread state (memo occupancy, directive depth, keyword-version stack) reached by such sequences, every call checked from every reachable state; non-trivial = sequences of length >= 2, distinct by construction".into();
     c.assumptions = vec![
         "a call's result is rendered without addresses: output text, origin of every byte, define table with origins, tree skeleton with positions, error variant and payload".into(),
         "state merging in (b): memo occupancy is reduced to empty / non-empty and stacks are cut at depth 3; part (a) does not merge anything".into(),
